@@ -377,6 +377,9 @@ macro_rules! impl_num_traits {
             fn min_positive_value() -> Self {
                 Self::MIN_POSITIVE
             }
+            fn epsilon() -> Self {
+                Self::EPSILON
+            }
             fn max_value() -> Self {
                 Self::MAX
             }
